@@ -41,7 +41,39 @@ def flatten_lazy(data):
 
 
 def errors_of(schema, src):
-    return [(stable(e.reason)[:140]) for e in schema.iter_errors(src)]
+    return [(e.path or "", stable(e.reason)[:140]) for e in schema.iter_errors(src)]
+
+
+def has_inner_keyref(xsd):
+    """Does the schema declare an xs:keyref on an element other than a global one (below the root)?"""
+    import xml.etree.ElementTree as ET
+    root = ET.fromstring(xsd)
+    xs = "{http://www.w3.org/2001/XMLSchema}"
+    top = set(root.findall(xs + "element"))
+    return any(k for e in root.iter(xs + "element") if e not in top for k in e.findall(xs + "keyref"))
+
+
+def compare_errors(l_errors, e_errors, depth, inner_keyref=False):
+    """-> None | (kind, finding id).  F-C06-e: the errors of the elements ABOVE the streamed depth (the root's
+    attributes with lazy=1) are reported after the errors of the chunks instead of before them; the two
+    subsequences (above / inside the chunks) are each in the fully loaded order."""
+    if l_errors == e_errors:
+        return None
+    if sorted(l_errors) != sorted(e_errors):
+        # F-C06-f: key references of a constraint declared BELOW the root, lazy depth >= 2: lost or
+        # reported at the root; everything else is reported identically
+        def rest(errs):
+            return [x for x in errs if "not found for Xsd" not in x[1]]
+        if depth >= 2 and inner_keyref and rest(l_errors) == rest(e_errors):
+            return "errors", "F-C06-f"
+        return "errors", None
+
+    def above(x):
+        return x[0].count("/") <= depth
+    if [x for x in l_errors if above(x)] == [x for x in e_errors if above(x)] and \
+            [x for x in l_errors if not above(x)] == [x for x in e_errors if not above(x)]:
+        return "errors-order", "F-C06-e"
+    return "errors-order", None
 
 
 def snapshot(e, nsmap):
@@ -98,9 +130,9 @@ def judge(job):
             continue
         if l_valid != e_valid:
             out.append((about, tag, f"is_valid={l_valid}, fully loaded: {e_valid}", None))
-        if l_errors != e_errors:
-            kind = "errors-order" if sorted(l_errors) == sorted(e_errors) else "errors"
-            out.append((about, tag, f"errors {l_errors} vs fully loaded {e_errors}", kind))
+        cmp = compare_errors(l_errors, e_errors, 1)
+        if cmp:
+            out.append((about, tag, f"errors {l_errors} vs fully loaded {e_errors}"[:900], cmp[0], cmp[1]))
         if not same_data(l_data, e_data):
             out.append((about, tag, f"decoded data {l_data!r} vs fully loaded {e_data!r}"[:600], "data",
                         known("data", "", about, l_data, e_data)))
@@ -115,11 +147,20 @@ def judge(job):
         if l_f1 != e_d1:
             out.append((about, tag, f"iterfind('*') {l_f1} vs children of the loaded root {e_d1}"[:600], "iterfind"))
     for d in depths:
+        tag = f"lazy={d}"
         try:
+            lv = schema.is_valid(xmlschema.XMLResource(xml, lazy=d))
             le = errors_of(schema, xmlschema.XMLResource(xml, lazy=d))
-            explored[d] = "same" if le == e_errors else ("same-set" if sorted(le) == sorted(e_errors) else "differs")
         except Exception as e:      # noqa: BLE001
-            explored[d] = f"raised {type(e).__name__}"
+            out.append((about, tag, f"raised {type(e).__name__}: {e}"[:200], None))
+            continue
+        explored[d] = "same" if le == e_errors else ("same-set" if sorted(le) == sorted(e_errors) else "differs")
+        cmp = compare_errors(le, e_errors, d, inner_keyref=has_inner_keyref(xsds[0]))
+        if lv != e_valid:
+            out.append((about, tag, f"is_valid={lv}, fully loaded: {e_valid}", None,
+                        cmp[1] if cmp and cmp[1] == "F-C06-f" and lv == (not le) else None))
+        if cmp:
+            out.append((about, tag, f"errors {le} vs fully loaded {e_errors}"[:900], cmp[0], cmp[1]))
     return out, explored
 
 
@@ -187,15 +228,16 @@ def known(kind, what, about="", lazy=None, eager=None):
 def documents(ctx: Ctx, thorough):
     docs = []
     # identity documents, constraints declared on the root (they span the streamed chunks)
-    for kind in ("key", "unique"):
-        consts = {"NF": 1, "KeyKind": f'"{kind}"', "Level": '"outer"', "MaxRows": 3, "MaxScopes": 2,
+    # ... and on the intermediate element (they live inside one chunk with lazy=1 and span chunks with lazy=2)
+    for kind, level in (("key", "outer"), ("unique", "outer"), ("key", "inner")):
+        consts = {"NF": 1, "KeyKind": f'"{kind}"', "Level": f'"{level}"', "MaxRows": 3, "MaxScopes": 2,
                   "RowKinds": '{"k", "f", "i", "p"}'}
-        r = ctx.tlc("Identity", "Identity.cfg", constants=consts, tag=f"docs-{kind}", workers=4)
+        r = ctx.tlc("Identity", "Identity.cfg", constants=consts, tag=f"docs-{kind}-{level}", workers=4)
         recs = [x for x in r.json_records() if c08.canonical(x)]
         step = 1 if thorough else 4
         for rec in recs[::step]:
-            docs.append(((c08.schema_xsd(1, kind, "outer", "integer", "attr", "child"),),
-                         c08.doc_xml(rec["doc"], "integer", "attr"), f"identity/{kind} {rec['doc']}"))
+            docs.append(((c08.schema_xsd(1, kind, level, "integer", "attr", "child"),),
+                         c08.doc_xml(rec["doc"], "integer", "attr"), f"identity/{kind}/{level} {rec['doc']}"))
     r = ctx.tlc("Validator", "Validator.cfg", constants={"MaxItems": 2, "Double": "FALSE"}, tag="docs-validator", workers=4)
     for rec in r.json_records()[:: (2 if thorough else 9)]:
         docs.append(((vdoc.XSD,), vdoc.render(rec["nodes"]), f"validator {rec['fault']}"))
@@ -236,12 +278,12 @@ def run(ctx: Ctx):
     ctx.sample({"document": docs[len(docs) // 2][1]})
     ctx.impl_replays = ctx.evaluations = total * 2
     ctx.nontrivial = total
-    ctx.extra["deeper_lazy_depths_explored_not_judged"] = deeper
+    ctx.extra["deeper_lazy_depths"] = deeper
     ctx.rule = ("documents: identity documents with root-level key/unique/keyref and ID/IDREF spanning the "
                 "streamed chunks (TLC, Identity.tla), single-fault documents (Validator.tla), prefix-redeclaring "
                 "documents (Namespaces.tla), pool documents; each fully loaded vs lazy depth 1 x thin on/off: "
                 "verdict, ordered errors, data, iter / iter_depth / iterfind sequences incl. in-scope namespaces")
-    ctx.assumptions += ["lazy depth 1 is judged; depths 2-3 are explored and counted in the evidence",
+    ctx.assumptions += ["lazy depth 1 is judged on verdict, errors, data and iteration; depths 2-3 on verdict and errors",
                         "decoded data is compared after materialising the lazy decoder's nested generators in "
                         "document order"]
 
